@@ -33,6 +33,14 @@ int EvalExpression::run(AsmContext *asm_context, Var &answer, bool is_paren)
     if (token_type == TOKEN_EOL || token_type == TOKEN_EOF)
     {
       tokens_push(asm_context, token, token_type);
+
+      // An open parenthesis was never closed.
+      if (is_paren == true)
+      {
+        print_error_unexp(asm_context, token);
+        return -1;
+      }
+
       break;
     }
 
@@ -139,7 +147,7 @@ int EvalExpression::run(AsmContext *asm_context, Var &answer, bool is_paren)
         if (IS_TOKEN(token, '-'))
         {
           // Needed for: 6 + -5.
-          parse_unary_new(asm_context, var);
+          if (parse_unary_new(asm_context, var) != 0) { return -1; }
           var.negative();
           var_stack.push(var);
           count++;
@@ -148,7 +156,7 @@ int EvalExpression::run(AsmContext *asm_context, Var &answer, bool is_paren)
         if (IS_TOKEN(token, '~'))
         {
           // Needed for: ~0xfe.
-          parse_unary_new(asm_context, var);
+          if (parse_unary_new(asm_context, var) != 0) { return -1; }
           var.complement();
           var_stack.push(var);
           count++;
@@ -208,6 +216,9 @@ int EvalExpression::run(AsmContext *asm_context, Var &answer, bool is_paren)
   {
     if (execute_stack(var_stack, oper_stack) != 0) { return  -1; }
   }
+
+  // An operator is left over without a right hand side, as in "1 +".
+  if (oper_stack.is_empty() == false) { return -1; }
 
   answer = var_stack.pop();
 
